@@ -504,6 +504,14 @@ def index_value(interp, base, idx):
             r = ListV([])
             base.store(idx, r)
             return r
+        if isinstance(idx, (Sym, Atom)) and idx.tag in ('str', None) and base.pairs and all(isinstance(p[0], Const) for p in base.pairs):
+            alts = ['<missing>'] + [repr(p[0]) for p in base.pairs]
+            c = interp.decide('%r is key' % (idx,), alts, ('dict-key', idx))
+            if c == '<missing>':
+                raise Raised(Exc('KeyError', repr(idx)))
+            for p in base.pairs:
+                if repr(p[0]) == c:
+                    return p[1]
         if isinstance(idx, (Sym, Atom, Top)):
             interp.imprecise('dict lookup with unknown key')
             return Top('dict item')
@@ -1101,6 +1109,8 @@ def call_method(interp, base, attr, args, kwargs, text=''):
                 return base.groups[0]
             if isinstance(args[0], Const) and isinstance(args[0].value, int) and args[0].value < len(base.groups):
                 return base.groups[args[0].value]
+            if isinstance(args[0], Const) and args[0].value in base.names:
+                return base.groups[base.names[args[0].value]]
             return Atom('group', [base, args[0]], None)
         if attr in ('start', 'end'):
             return Atom(attr, [base], 'int')
@@ -1194,12 +1204,12 @@ def regex_method(interp, rv, attr, args, kwargs):
         mm = getattr(cre, attr)(subj.value)
         if mm is None:
             return Const(None)
-        return MatchV(rv, subj, [Const(mm.group(0))] + [Const(g) for g in mm.groups()])
+        return MatchV(rv, subj, [Const(mm.group(0))] + [Const(g) for g in mm.groups()], dict(cre.groupindex))
     if subj.tag is not None and subj.tag != 'str':
         raise Raised(Exc('TypeError', 'expected string or bytes-like object'))
     if interp.decide('%s %s %r' % (rv.pattern, attr, subj), [True, False], None):
         n = cre.groups
-        return MatchV(rv, subj, [Atom('group', [subj, Const(i)], 'str') for i in range(n + 1)])
+        return MatchV(rv, subj, [Atom('group', [subj, Const(i)], 'str') for i in range(n + 1)], dict(cre.groupindex))
     return Const(None)
 
 
